@@ -15,8 +15,8 @@ TREE = json.load(open(os.path.join(SPEC, "diode", "tree_state.json")))
 
 OWN_EVENTS = {
     "C10": {"WRet", "DStart", "DEnd", "Alert", "EndBlocked", "WStart", "PBlocked", "GPanic"},
-    "C11": {"CloseStart", "CloseRet"},
-    "C12": {"Quiesce", "Stuck"},
+    "C11": {"CloseStart", "CloseRet", "GPanic"},
+    "C12": {"Quiesce", "Stuck", "GPanic"},     # a goroutine of the diode that dies is everybody's violation
 }
 MODEL_INVS = {
     "C10": ["TypeOK", "CexNoDup", "CexOrderSeq", "ProgramOrder", "CexAlertBound", "NonBlocking"],
@@ -455,6 +455,8 @@ def check(pid, tier, seed, replay=None):
             log("%s: transition cover: %d walks over %d model transitions %.0fs" % (pid, len(covers), sum(g["edges"] for g in graphs.values()), time.time() - t0))
             # a wrapped writer that fails once (its k-th Write returns an error): the diode must go on delivering
             faulty = [dict(s, id=s["id"] + "-werr%d" % (1 + i % 3), werr=1 + i % 3) for i, s in enumerate(sims) if i % 4 == 0]
+            # a writer created with a nil alerter (drops are silent by construction: no accounting, everything else must hold)
+            faulty += [dict(s, id=s["id"] + "-noalert", noalert=True) for i, s in enumerate(sims) if i % 6 == 1]
             scripts = leads + directed + sims + blocked + free + covers + faulty
         log("%s: %d scripts (%d model leads)" % (pid, len(scripts), len(leads)))
         recs = play(player, sc, scripts, shards=min(NCPU, max(1, len(scripts) // 20)))
